@@ -468,6 +468,9 @@ func runC17(c *Ctx) {
 			hay := x.Args[0]
 			ok := true
 			for leaf := range u.Leaves(hay) {
+				if sv, isS := leaf.StrVal(); isS && sv == "" {
+					continue // the "no hostname part" alternative of a helper's result: nothing of the URL is cut off
+				}
 				if !(leaf == url || (leaf.Op == "slice" && leaf.Args[0] == url && leaf.Args[2] == nil)) {
 					ok = false
 				}
